@@ -110,8 +110,11 @@ var vfC16Turns = []vfC16Turn{
 	{"emit", VfTurn{Emit: 1, Rows: 1}, true},
 	{"emit+meta", VfTurn{Emit: 1, Rows: 2, Meta: []string{"uk", "uv"}}, true},
 	{"emit0", VfTurn{Emit: 1, Rows: 0}, true},
-	{"error", VfTurn{Emit: 1, Rows: 1, Fail: "rpc:ValueError"}, false},
-	{"panic", VfTurn{Logs: []string{"INFO:x"}, Fail: "panic"}, false},
+	// failing turns: the fault (returned error / panic) placed before and after the emit
+	{"error-after-emit", VfTurn{Emit: 1, Rows: 1, Fail: "rpc:ValueError"}, false},
+	{"error-before-emit", VfTurn{Logs: []string{"INFO:y"}, Fail: "rpc:ValueError"}, false},
+	{"panic-before-emit", VfTurn{Logs: []string{"INFO:x"}, Fail: "panic"}, false},
+	{"panic-after-emit", VfTurn{Emit: 1, Rows: 1, Fail: "panic"}, false},
 	{"no-emit", VfTurn{}, false},
 }
 
@@ -515,7 +518,7 @@ func TestVerif_C16(t *testing.T) {
 			out = append(out, fmt.Sprintf("%s:ran=%d:data=%d:cursors=%d:status=%d", verdict, nExch, info.data, len(info.cursors), info.status))
 			wantAccepted := false
 			if expect == "ran" {
-				t := vfC16Turn{succeeds: true} // past the script an exchange emits
+				t := vfC16Turn{name: "past-script", succeeds: true} // past the script an exchange emits
 				if effPos < len(defs) {
 					t = defs[effPos]
 				}
@@ -529,7 +532,7 @@ func TestVerif_C16(t *testing.T) {
 					fail("C16:exchange:good-turn-failed", "%s: turn %d should succeed but the response is an error: %+v", where, effPos, info)
 				}
 				if !wantAccepted && verdict == "accepted" {
-					fail("C16:exchange:failed-turn-accepted", "%s: turn %d fails in the handler but the response carries no error: %+v", where, effPos, info)
+					fail("C16:exchange:failed-turn-accepted:"+t.name, "%s: turn %d fails in the handler but the response carries no error: %+v", where, effPos, info)
 				}
 			}
 			if expect == "refused" {
